@@ -391,7 +391,7 @@ func init() {
 			"reference renderers/builders written from TS 24.501 9.11.3.4, TS 24.008 10.5.1.3 and TS 23.003 (AMF id = region 8 || set 10 || pointer 6)",
 			"hex text is lower case as the library emits it; upper-case input must convert to the same octets",
 		},
-		Oracles: map[string]func(*core.Ctx, *core.Case){"plmn": c12Plmn, "plmn-one": c12PlmnOne, "amf": c12Amf, "guti": c12Guti, "suci": c12Suci, "nai": c12Nai, "pei": c12Pei, "invalid": c12Invalid, "ident-series": c12Series},
+		Oracles: map[string]func(*core.Ctx, *core.Case){"cold-concurrent": coldConcurrent, "plmn": c12Plmn, "plmn-one": c12PlmnOne, "amf": c12Amf, "guti": c12Guti, "suci": c12Suci, "nai": c12Nai, "pei": c12Pei, "invalid": c12Invalid, "ident-series": c12Series},
 		Exhaustive: func(tier string) (bool, string) {
 			return true, "all PLMNs and all 2^24 AMF identifiers; TMSI, SUCI and PEI spaces sampled"
 		},
@@ -524,6 +524,15 @@ func init() {
 					}
 				}
 			}})
+		}
+		// cold starts are the scarce resource here: eight processes (thorough: sixteen), 128
+		// goroutines released from a spinning barrier, the first library call of most items a getter
+		nCold := 8
+		if tier == "thorough" {
+			nCold = 16
+		}
+		for i := 0; i < nCold; i++ {
+			us = append(us, coldUnitN("nasConvert", i, 128, "getters", "getters", "ident"))
 		}
 		return us
 	}
